@@ -14,7 +14,7 @@ def describe(tier):
         "rule": "every file of the C10 input family (quick: arity 1..4, <=2 entries; thorough: <=3 entries) is written once by IndxIO.save - on an unbuffered file whose content is "
         "snapshotted at every method call on the file object and every source line executed in indxio.py - and then (i) every content a crash can leave between two snapshots "
         "(changed regions applied byte by byte, several regions in every order; truncations) other than the complete file, and (ii) EVERY prefix length k in 0..len-1 "
-        "(os.truncate, longest first) is handed to IndxIO.load, which must raise. Plus four larger files (4-17 KiB, one of exactly one page) cut at every byte, and the file of every initial state of the C06 state graph (all dense arrays x all common values, 1-D/2-D/3-D). evaluations = crash points; "
+        "(os.truncate, longest first) is handed to IndxIO.load, which must raise. Every eighth file (and every seventh cut of the larger files) is also loaded through a handle opened for update, which must reject it and leave its length alone. Plus five larger files (4-17 KiB, one of exactly one page, one of 280 KiB) cut at every byte, and the file of every initial state of the C06 state graph (all dense arrays x all common values, 1-D/2-D/3-D). evaluations = crash points; "
         "a crash point is non-trivial when it lies beyond the 16-byte header (the prefix carries a valid magic and size word). Distinct = distinct (file bytes, k).",
         "bounds": {"cut_points": "all", "files": "C10 family"},
         "exhaustive": True,
@@ -30,6 +30,7 @@ LARGE = [
     ([(300, 2), (7, 70000)], [list(range(0, 2200, 2)), list(range(1, 2100))], 5),
     ([(1, 1, 1)], [list(range(1024 - 7))], 2),          # 16 + payload = exactly one 4096-byte page
     ([(2 ** 33,)], [list(range(1500))], 1),
+    ([(1,), (2,)], [list(range(0, 140000, 2)), list(range(5))], 0),     # 280 KiB: beyond 64 KiB / 256 KiB thresholds of chunked or buffered readers
 ]
 
 
@@ -58,16 +59,23 @@ def tear(keys, arrays, common, acc, only_k=None):
         with open(path, "wb") as f:
             f.write(blob)
     deep = 0
+    # every eighth file is ALSO loaded through a handle opened for update ("r+b"): the torn file must be rejected and left as it is
+    update_too = (n + len(keys) + common) % 8 == 0 or only_k is not None
     for k in ks:
         os.truncate(path, k)
-        with open(path, "rb") as f:
-            try:
-                res = IndxIO.load(f)
-            except Exception:
-                res = None
-            else:
-                ents = {kk: numpy.array(v).tolist() for kk, v in res[0].items()}
-                acc.violation("load:accepted-torn-file", dict(case, cut=k, length=n), "load of the first %d of %d bytes returned %r" % (k, n, (ents, res[1]))[:600])
+        for mode in (("rb", "r+b") if update_too else ("rb",)):
+            with open(path, mode) as f:
+                try:
+                    res = IndxIO.load(f)
+                except Exception:
+                    res = None
+                else:
+                    ents = {kk: numpy.array(v).tolist() for kk, v in res[0].items()}
+                    res = None
+                    acc.violation("load:accepted-torn-file", dict(case, cut=k, length=n, mode=mode), "load of the first %d of %d bytes (file opened %r) returned %r" % (k, n, mode, (ents,))[:600])
+            if mode == "r+b" and os.path.getsize(path) != k:
+                acc.violation("load:changed-torn-file", dict(case, cut=k, length=n, mode=mode), "loading the first %d bytes through an 'r+b' handle left a file of %d bytes" % (k, os.path.getsize(path)))
+                os.truncate(path, k)
         if k > 16:
             deep += 1
     return n, deep
@@ -112,13 +120,21 @@ def tear_range(keys, arrays, common, acc, part, nparts):
     for k in range(n - 1 - ((n - 1 - part) % nparts), -1, -nparts):
         os.truncate(path, k)
         cnt += 1
-        with open(path, "rb") as f:
-            try:
-                res = IndxIO.load(f)
-            except Exception:
-                continue
-            acc.violation("load:accepted-torn-file", {"keys": keys, "arrays": [[len(a)] for a in arrays], "large": True, "common": common, "cut": k, "length": n},
-                          "load of the first %d of %d bytes returned %d entries" % (k, n, len(res[0])))
+        for mode in (("rb", "r+b") if k % 7 == 0 else ("rb",)):
+            with open(path, mode) as f:
+                try:
+                    res = IndxIO.load(f)
+                except Exception:
+                    res = None
+                else:
+                    nent = len(res[0])
+                    res = None
+                    acc.violation("load:accepted-torn-file", {"keys": keys, "arrays": [[len(a)] for a in arrays], "large": True, "common": common, "cut": k, "length": n, "mode": mode},
+                                  "load of the first %d of %d bytes (file opened %r) returned %d entries" % (k, n, mode, nent))
+            if mode == "r+b" and os.path.getsize(path) != k:
+                acc.violation("load:changed-torn-file", {"keys": keys, "arrays": [[len(a)] for a in arrays], "large": True, "common": common, "cut": k, "length": n, "mode": mode},
+                              "loading the first %d bytes through an 'r+b' handle left a file of %d bytes" % (k, os.path.getsize(path)))
+                os.truncate(path, k)
     return cnt, 0
 
 
